@@ -143,6 +143,12 @@ func HarnessC04_Concurrent() {
 			wantCS++
 		}
 	}
+	// a duplicate of an already matched response must not be matched a second time
+	dup, derr := NewProtocol(newDuplexWith(t.responses[0])).ReadMessage()
+	if derr == nil && r.errs == 0 {
+		_, e := p.DecodeMessage(dup)
+		vAssert(e != nil, "no response is matched twice")
+	}
 	vAssert(werrs == 0, "requests are written")
 	vAssert(r.errs == 0, "no response fails to be read or decoded (no spurious 'no matched request')")
 	vAssert(r.connRes == wantConn && r.csRes == wantCS && r.other == 0, "every response is decoded as the response type of its request, exactly once")
